@@ -94,6 +94,8 @@ def eval_pair(case):
     u, v, sa = case["u"], case["v"], case["suffix_aware"]
     out = []
     try:
+        for wu, wsa in case.get("before", ()):     # earlier calls (other URLs, the other mode): the stems of u and v must not depend on them
+            lru_stems(wu, suffix_aware=wsa)
         su, sv = lru_stems(u, suffix_aware=sa), lru_stems(v, suffix_aware=sa)
         lu, lv = url_to_lru(u, suffix_aware=sa), url_to_lru(v, suffix_aware=sa)
     except Exception as e:  # noqa
@@ -124,7 +126,7 @@ HOSTS_Q = ["fr.lemonde.fr", "co.uk.bbc.co.uk", "com.evil.com", "lemonde.fr", "ww
 HOSTS_T = HOSTS_Q + ["b.a.x.kawasaki.jp", "a.city.kawasaki.jp", "jp", "com", "xlemonde.fr", "lemonde.frx", "monde.fr",
                      "a.foo.unknowntld", "blogspot.com", "me.blogspot.com", "LeMonde.FR",
                      "shop.com", "news.co.uk.bbc.co.uk", "2.cdn.bbc.co.uk", "cdn.bbc.co.uk", "0.evil.com"]
-PATHS_Q = ["", "/", "/a", "/a/", "/a/b", "/a/b/c", "/ab"]
+PATHS_Q = ["", "/", "/a", "/a/", "/a/b", "/a/b/c", "/ab", "/a/a", "/a/a/b", "/a/b/b"]
 PATHS_T = PATHS_Q + ["/a//b", "/b", "/a/b/", "/A"]
 TAILS = ["", "?q=1", "#f", "?q=1#f"]
 TAILS_T = TAILS + ["?q=12", "?q=1#fg"]
@@ -197,7 +199,30 @@ def _pairs(acc, shard, nshards, seed, tier):
             acc.samples.setdefault("look-alike sa=%s" % sa, sample_look)
 
 
+def _histories(acc, shard, nshards, seed, tier):
+    """ancestor / descendant pairs evaluated one by one, each after earlier calls on the same hosts in the *other* mode and in the same
+    mode (the all-ordered-pairs campaign computes one table per mode, so state kept between calls would go unnoticed there)"""
+    hosts = HOSTS_Q if tier == "quick" else HOSTS_T
+    idx = 0
+    for hu in hosts:
+        for hv in hosts:
+            if not (hv == hu or hv.endswith("." + hu)):
+                continue
+            for sa in (False, True):
+                for pu_, pv_ in (("", "/a"), ("", ""), ("/a", "/a/b"), ("", "/a/b?q=1")):
+                    if hv != hu and pu_:
+                        continue
+                    idx += 1
+                    if idx % nshards != shard:
+                        continue
+                    u, v = "http://%s%s" % (hu, pu_), "http://%s%s" % (hv, pv_)
+                    for before in ([[u, not sa]], [[v, not sa], [u, not sa]], [[u, sa], [u, not sa]], [[v, not sa]]):
+                        acc.check({"kind": "pair", "u": u, "v": v, "suffix_aware": sa, "before": before}, u != v, ["history:" + "+".join("same" if b[1] == sa else "other" for b in before)] if idx % 5 == 0 else ())
+
+
 def campaigns(tier, seed):
     n = len(universe(tier))
-    return [Campaign("all-ordered-pairs", _pairs, "enumeration", exhaustive=True,
+    return [Campaign("pairs-after-earlier-calls", _histories, "enumeration", exhaustive=True,
+                     bounds="every (host, host-or-subdomain) pair of the universe x 4 path shapes x suffix_aware x 4 call histories (other mode first)"),
+            Campaign("all-ordered-pairs", _pairs, "enumeration", exhaustive=True,
                      bounds="%d URLs -> %d ordered pairs x suffix_aware in {False,True}" % (n, n * n))]
